@@ -188,6 +188,17 @@ mut("c14_nd_str_sets_printoptions", "C14", "sempler/normal_distribution.py",
     "        np.set_printoptions(precision=4, suppress=True)\n        return \"mean:\\n\" + str(self.mean) + \"\\ncovariance:\\n\" + str(self.covariance)",
     "str(distribution) leaves numpy's print options changed: interpreter-wide state")
 
+mut("c14_plot_matrix_thresh_in_place", "C14", "sempler/plot.py",
+    "    if ax is None:\n        plt.figure()\n        ax = plt.gca()\n    ax.imshow(A, vmin=vmin, vmax=vmax, cmap=\"bwr\")",
+    "    if ax is None:\n        plt.figure()\n        ax = plt.gca()\n    A[np.abs(A) < thresh] = 0\n    ax.imshow(A, vmin=vmin, vmax=vmax, cmap=\"bwr\")",
+    "the documented (and unimplemented) thresh of plot_matrix applied in place: a matrix with tiny non-zero entries "
+    "- or the W of a live model - is changed by plotting it; sempler.plot against the simulated display")
+mut("c14_plot_graph_clears_diagonal", "C14", "sempler/plot.py",
+    "    G = nx.from_numpy_array(W, create_using=nx.DiGraph)\n",
+    "    diagonal = np.diag(W).copy()\n    np.fill_diagonal(W, 0)    # no self-loops in the drawing\n    G = nx.from_numpy_array(W, create_using=nx.DiGraph)\n",
+    "plot_graph clears the diagonal of the caller's matrix for the drawing (and never puts it back): matrices with a "
+    "self-loop / non-zero diagonal")
+
 # ---------------------------------------------------------------- C19
 mut("c19_predict_parents_reversed", "C19", "sempler/semi.py",
     "                    new_data = pd.DataFrame(sample[:, sorted(parents)])",
